@@ -150,6 +150,44 @@ Theorem C05_one_segment_survives_reload :
 Proof. exact oneseg_reload. Qed.
 Print Assumptions C05_one_segment_survives_reload.
 
+(* ... and the DATA of such a saved object: a data request on a section reloaded from the saved file (same header
+   fields, nothing resident yet) stores exactly the bytes the section had when it was saved, followed by the
+   terminator - members of the segment and sections outside it alike *)
+Theorem C05_one_segment_data_survives_reload :
+  forall junk el h0 g bound ms,
+    let idxs := g_sections g in
+    let align := if 0 <? p_align g then p_align g else 1 in
+    let secs := el_secs el in
+    let pos0 := e_ehsize h0 + e_phentsize h0 in
+    el_hdr el = Some h0 -> el_segs el = [g] -> lenN secs < 2 ^ 16 ->
+    lenN idxs < 2 ^ 16 -> idxs <> [] -> g_offset_set g = false -> p_type g <> PT_PHDR -> NoDup idxs ->
+    Forall2 (fun i s => nth_optN secs i = Some s) idxs ms ->
+    Forall auto_member ms -> Forall (fun s => sh_addralign s <= p_align g) ms ->
+    bound <= 2 ^ 63 -> Forall (fun s => bound <= 2 ^ xw (s_cls s)) secs -> bound <= 2 ^ xw (g_cls g) ->
+    bound <= 2 ^ xw (e_cls h0) -> p_align g < 2 ^ 63 ->
+    p_vaddr g + pos0 + align + mbudget ms + budget secs + 16 + e_shentsize h0 * lenN secs < bound ->
+    indexed_from 0 secs ->
+    (forall s, In s secs -> s_index s = 0 -> csize s = 0) ->
+    (forall s b, In s secs -> s_data s = Some b -> sh_size s <= lenN b) ->
+    lenN (e_ident h0) = 16 -> e_ehsize h0 = ehdr_size (e_cls h0) ->
+    (forall s, In s secs -> shdr_size (s_cls s) <= e_shentsize h0) ->
+    phdr_size (g_cls g) <= e_phentsize h0 -> g_index g = 0 ->
+    exists el' h' g',
+      layout el = Ok (el', true) /\ el_hdr el' = Some h' /\ el_segs el' = [g'] /\
+      let plan := oneseg_plan h' (el_secs el') (segments_plan (e_enc h') h' [g']) in
+      (plan_small 0 plan ->
+       let file := os_bytes (exec_plan (new_ostream None) plan) in
+       lenN file < 2 ^ 63 ->
+       forall st s b r,
+         In s (el_secs el') -> csize s <> 0 -> s_data s = Some b ->
+         same_hdr s r -> s_data r = None -> s_stream_size r = lenN file ->
+         is_fail st = false -> st_inv st -> is_content st = file ->
+         exists st1 s1,
+           sec_load_data junk (Some st) [] r = Ok (Some st1, s1, true, [sh_size r + 1]) /\
+           s_data s1 = Some (firstnN b (sh_size s) ++ [0])).
+Proof. exact oneseg_reload_data. Qed.
+Print Assumptions C05_one_segment_data_survives_reload.
+
 (* sections flagged compressed, objects with the (modelled) compression interface: what the writer stores for such
    a section is the interface's deflate of its data, and what an eager load hands out is the interface's inflate of the
    stored bytes, followed by the terminator byte - for the interface of the correspondence harness the two cancel *)
